@@ -24,7 +24,14 @@ def all_present(case: dict, rng=None) -> list:
 
 def judge(rec, props: tuple, case: dict, *, want=None, extra=None, key=None, slim: bool = True):
     """Returns (outcome, observation|None, Diffs|None). Records evaluations, classes, violations."""
-    out = harness.parse(case["text"], harness.pairs(want) if want is not None else None)
+    if len(case["text"]) % 5 == 2:
+        # every fifth chart is read while the application has the library's reports silenced (logging.disable(WARNING) / the package
+        # logger at ERROR, alternating): what a well-formed chart decodes to does not depend on who is listening
+        with harness.quiet(len(case["text"]) // 5):
+            out = harness.parse(case["text"], harness.pairs(want) if want is not None else None)
+        rec.cls("chart_read_with_the_library's_reports_silenced")
+    else:
+        out = harness.parse(case["text"], harness.pairs(want) if want is not None else None)
     rcase = {"text": case["text"], "truth": case["truth"]}
     if want is not None:
         rcase["want"] = want
